@@ -190,6 +190,15 @@ func genHistory(r *rand.Rand, profile string) History {
 			}
 			// a message whose execution is not modelled travels alone (its transaction's outcome is then
 			// compared only up to "passed the PoA decorators")
+			for i, m := range msgs {
+				if m.Kind == "tree" && b == 0 {
+					// height 1: the PoA filters are off and x/staking's own handlers would run; they are not modelled
+					msgs[i] = genNoise(r)
+					for msgs[i].Kind == "tree" {
+						msgs[i] = genNoise(r)
+					}
+				}
+			}
 			for _, m := range msgs {
 				if m.Kind == "tree" {
 					msgs = []MsgSpec{m}
